@@ -145,23 +145,39 @@ fn dispatch(p: &[&str]) -> String {
         100, 127, 128, 129, 160, 192, 200, 250, 255, 256, 257, 320, 384, 512, 521, 1024, 4096])
 }
 
-/// Per-case watchdog (termination of `root`/`log` is part of C13): every case runs on a worker thread;
-/// if it does not answer within `C13_CASE_TIMEOUT_MS` (default 3 s; the slowest legitimate case takes
-/// milliseconds) the process flushes what it has and exits, so that the orchestrator records `abort`
-/// for exactly that case and resumes with the next one (same protocol as a crashed process).
+/// utime + stime (clock ticks, USER_HZ = 100) of one thread, from `/proc/<pid>/task/<tid>/stat`.
+fn thread_cpu_ticks(stat_path: &str) -> Option<u64> {
+    let s = std::fs::read_to_string(stat_path).ok()?;
+    let rest = s.rsplit_once(')')?.1;
+    let f: Vec<&str> = rest.split_whitespace().collect();
+    // `rest` starts at field 3 (state); utime is field 14, stime field 15
+    Some(f.get(11)?.parse::<u64>().ok()? + f.get(12)?.parse::<u64>().ok()?)
+}
+
+/// Per-case watchdog (termination of `root`/`log` is part of C13): every case runs on a worker thread.
+/// A case that has not answered after 250 ms is watched: once it has burnt `C13_CASE_TIMEOUT_MS`
+/// (default 3000) of **CPU time of the worker thread** since then — so that a loaded machine cannot cause
+/// a false alarm; the slowest legitimate case takes some 50 ms — or 120 s of wall time, the process flushes
+/// what it has and exits, so that the orchestrator records `abort` for exactly that case and resumes with
+/// the next one (same protocol as a crashed process).
 /// Otherwise identical to `vh::run_lines` (catch_unwind, `panic` outcome, HOOKS line).
 fn main() {
     use std::io::{BufRead, Write};
     use std::sync::mpsc;
+    use std::time::{Duration, Instant};
     std::panic::set_hook(Box::new(|_| {}));
-    let limit = std::time::Duration::from_millis(
-        std::env::var("C13_CASE_TIMEOUT_MS").ok().and_then(|v| v.parse().ok()).unwrap_or(3000),
-    );
+    let cpu_limit_ticks: u64 =
+        std::env::var("C13_CASE_TIMEOUT_MS").ok().and_then(|v| v.parse::<u64>().ok()).unwrap_or(3000) / 10;
     let (tx_case, rx_case) = mpsc::channel::<String>();
     let (tx_res, rx_res) = mpsc::channel::<String>();
+    let (tx_tid, rx_tid) = mpsc::channel::<String>();
     std::thread::Builder::new()
         .stack_size(256 << 20)
         .spawn(move || {
+            let me = std::fs::read_link("/proc/thread-self")
+                .map(|p| format!("/proc/{}/stat", p.display()))
+                .unwrap_or_default();
+            let _ = tx_tid.send(me);
             for line in rx_case {
                 let parts: Vec<&str> = line.split_whitespace().collect();
                 let r = std::panic::catch_unwind(std::panic::AssertUnwindSafe(|| dispatch(&parts)));
@@ -171,6 +187,7 @@ fn main() {
             }
         })
         .unwrap();
+    let stat_path = rx_tid.recv().unwrap_or_default();
     let stdin = std::io::stdin();
     let stdout = std::io::stdout();
     let mut out = std::io::BufWriter::new(stdout.lock());
@@ -181,9 +198,30 @@ fn main() {
             continue;
         }
         tx_case.send(line).unwrap();
-        match rx_res.recv_timeout(limit) {
-            Ok(s) => writeln!(out, "{s}").unwrap(),
-            Err(_) => {
+        let started = Instant::now();
+        let mut base_ticks: Option<u64> = None;
+        let res = loop {
+            match rx_res.recv_timeout(Duration::from_millis(250)) {
+                Ok(s) => break Some(s),
+                Err(mpsc::RecvTimeoutError::Disconnected) => break None,
+                Err(mpsc::RecvTimeoutError::Timeout) => {
+                    let now = thread_cpu_ticks(&stat_path);
+                    match (base_ticks, now) {
+                        (None, Some(t)) => base_ticks = Some(t),
+                        (Some(b), Some(t)) if t.saturating_sub(b) >= cpu_limit_ticks => break None,
+                        // no /proc: fall back to wall time
+                        (_, None) if started.elapsed() > Duration::from_millis(cpu_limit_ticks * 10 + 250) => break None,
+                        _ => {}
+                    }
+                    if started.elapsed() > Duration::from_secs(120) {
+                        break None;
+                    }
+                }
+            }
+        };
+        match res {
+            Some(s) => writeln!(out, "{s}").unwrap(),
+            None => {
                 // non-terminating (or absurdly slow) case
                 out.flush().unwrap();
                 std::process::exit(3);
